@@ -926,6 +926,7 @@ fn exec_play(song: &mut Song, t: &Token) -> bool {
         // check lastpos
         if trk!(song).timepos > time_ptr_last { time_ptr_last = trk!(song).timepos; }
     }
+    trk!(song).timepos = time_ptr_last;
     song.track_sync();
     song.cur_track = tmp_cur_track;
     true
